@@ -68,12 +68,12 @@ Definition un_state (s : sx) : option state :=
       let? b := un_list un_bool b in
       let? c := un_list un_item c in
       let? e := un_list un_item e in
-      let? f := un_zlist f in
+      let? f := option_map (map f_canon) (un_zlist f) in
       let? ix := un_list un_pair ix in
       let? i := un_zlist i in
       let? n := un_list un_zlist n in
       let? bv := un_list (un_list un_bool) bv in
-      let? fv := un_list un_zlist fv in
+      let? fv := option_map (map (map f_canon)) (un_list un_zlist fv) in
       let? iv := un_list un_zlist iv in
       let? inp := un_list un_msg inp in
       let? outp := un_list un_msg outp in
